@@ -21,6 +21,17 @@ int64_t evaluate_array_ref(
     const std::vector<int64_t> *known_indices) {
     bool debug_mode = interpreter.is_debug_mode();
 
+    // The target copy of a compound assignment (a[f()] += v) reads the
+    // element with the index values already evaluated for the target.
+    std::vector<int64_t> reused_target_indices;
+    if (!known_indices) {
+        if (const std::vector<int64_t> *reused =
+                interpreter.reused_assign_target_indices(node)) {
+            reused_target_indices = *reused;
+            known_indices = &reused_target_indices;
+        }
+    }
+
     debug_msg(DebugMsgId::EXPR_EVAL_ARRAY_REF, node->name.c_str());
 
     if (debug_mode) {
